@@ -945,9 +945,19 @@ theorem gen_table_status_stateErr (s : State) (ls : Bool) (c : Nat) (a b : Bool)
     T.firstRow Gen.Sem.addError env = some [.setStatus .clusterError, .retVoid] :=
   ⟨T.statusTbl_stateErr s ls c a b h hab hp, T.addError_table env⟩
 
+/-- `RecoverAll`: a failed listing is RETURNED as an error without entering the loop (fix aa42f84), else the loop and `resp, nil`; the loop
+    with the regenerated body — `recoverWithPinInfo` on the listed entry, leave with the error at the first one that fails, else next —
+    is the model's `raLoop`, for every listing (stale or not), state and activity in between. -/
+theorem gen_table_recoverAll (cfg : Cfg) (L : Nat → Option Status) (s : State) (items : List (List Ev × Nat)) :
+    T.raLoopT Gen.Sem.recoverAllBody cfg L s items = some (raLoop cfg L s items) ∧
+    T.firstRow Gen.Sem.recoverAll (T.envErr false) = some [.listAll, .retErr] ∧
+    T.firstRow Gen.Sem.recoverAll (T.envErr true) = some [.listAll, .forEach, .retNil] :=
+  ⟨T.raLoopT_eq cfg L items s, T.recoverAll_outer.1, T.recoverAll_outer.2⟩
+
 theorem gen_table_known_c :
     (T.known Gen.Sem.enqueue && T.known Gen.Sem.track && T.known Gen.Sem.untrack && T.known Gen.Sem.recover &&
-     T.known Gen.Sem.status && T.known Gen.Sem.addError) = true := T.tables_known_c
+     T.known Gen.Sem.status && T.known Gen.Sem.addError && T.known Gen.Sem.recoverAll && T.known Gen.Sem.recoverAllBody) = true :=
+  T.tables_known_c
 
 example : T.statusTbl Gen.Sem.status k06Run true 0 = some .pinError := by decide
 example : T.statusTbl Gen.Sem.status k06Run false 0 = some .clusterError := by decide
